@@ -175,10 +175,8 @@ class UnionUnpackerBuilder(AbstractUnpackerBuilder):
         return method_name
 
     def _add_body(self, spec: ValueSpec, lines: CodeLines) -> None:
-        if not spec.field_ctx.unpacker and self.method_name:
-            spec.field_ctx.unpacker = self._get_call_expr(
-                spec, self.method_name
-            )
+        if self.method_name:
+            spec.field_ctx.union_unpackers[id(spec.type)] = self.method_name
         orig_lines = lines
         lines = CodeLines()
         unpackers = set()
@@ -244,7 +242,10 @@ class UnionUnpackerBuilder(AbstractUnpackerBuilder):
 
     def _get_existing_method(self, spec: ValueSpec) -> Optional[str]:
         if spec.owner is spec.type:
-            return spec.field_ctx.unpacker
+            method_name = spec.field_ctx.union_unpackers.get(id(spec.type))
+            if method_name:
+                return self._get_call_expr(spec, method_name)
+        return None
 
 
 class TypeVarUnpackerBuilder(UnionUnpackerBuilder):
